@@ -61,7 +61,7 @@ def build_chain(rng, n, start_ts=1_500_000_000, chain=None, fork_at=None):
         else:
             delta = rng.choice([0, 1, 100, 131, 132, 133, 149, 150, 151, 157, 158, 225, 750, 751, 800, 10 ** 6, -50, -5000, 150, 150, 600])
         ts = max(1, min(0xffffffff, ts + delta))
-        raw = R.mine(rng.choice([1, 0x20000000, 0x7fffffff]), prev_hash, rng.randbytes(32), rng.randbytes(32), ts, bits, target,
+        raw = R.mine(rng.choice([1, 0x20000000, 0x7fffffff]), prev_hash, rng.randbytes(32), rng.randbytes(32), ts, bits, min(target, R.compact_to_target(bits)),
                      start_nonce=rng.getrandbits(31))
         out.append(raw)
     return out
@@ -108,6 +108,7 @@ def gen_cases(rng, tier, shard, nshards):
         fams.append([{'fam': 'mainnet'}])
     fams.append([{'fam': 'connect', 'seed': rng.getrandbits(48), 'ck': rng.random() < 0.3} for _ in range(8 if q else 150)])
     fams.append([{'fam': 'checkpoint', 'seed': rng.getrandbits(48)} for _ in range(2 if q else 30)])
+    fams.append([{'fam': 'pow_sliver', 'seed': rng.getrandbits(48), 'quick': q} for _ in range(1 if q else 6)])
     fams.append([{'fam': 'retarget', 'seed': rng.getrandbits(48), 'count': 10000} for _ in range(3 if q else 120)])
     # crash part: tail lengths covering every residue of (tip - repair start) mod 36
     tails = list(range(1, 81))
@@ -326,7 +327,8 @@ async def _fam_connect(rec, case):
                     prevraw = below[-1] if below else None
                     pp = below[-2] if len(below) >= 2 else None
                     target = R.next_target(MAXT, R.unpack(pp) if pp else None, R.unpack(prevraw)) if prevraw else MAXT
-                    good[pos] = R.mine(hdr['version'], other, hdr['merkle'], hdr['claimtrie'], hdr['timestamp'], hdr['bits'], target)
+                    good[pos] = R.mine(hdr['version'], other, hdr['merkle'], hdr['claimtrie'], hdr['timestamp'], hdr['bits'],
+                                       min(target, R.compact_to_target(hdr['bits'])))
                     good = good[:pos + 1]
                     label = 'valid-but-unlinked'
                 else:
@@ -345,7 +347,16 @@ async def _fam_connect(rec, case):
                     good = good[:pos + 1]
                     label = which
                 batch = good
-            await _connect_op(rec, hdrs, start, b''.join(batch), label, genesis)
+            added = await _connect_op(rec, hdrs, start, b''.join(batch), label, genesis)
+            if added and added == len(batch):
+                # the "bad" batch turned out valid (e.g. the randomly chosen foreign parent was the real one, or the flipped bit
+                # did not matter): it is a fork like any other and the model follows it
+                if start + len(batch) < L:
+                    rec.hit('op.fork_shorter_than_old_tail')
+                    stale_len = max(stale_len, L)
+                    junctions.add(start + len(batch))
+                cur = cur[:start] + [bytes(x) for x in batch]
+                E = len(cur)
         elif op == 'beyond':
             await _connect_op(rec, hdrs, len(hdrs) + r.choice([1, 2, 1000]), b''.join(chain[:2]), label, genesis)
         elif op == 'misaligned':
@@ -360,6 +371,45 @@ async def _fam_connect(rec, case):
                 break
     rec.case(['connect', case['ck'], kinds], nontrivial=any(k not in ('extend',) for k in kinds),
              sample={'family': 'connect', 'checkpointed': case['ck'], 'ops': kinds, 'final_len': len(hdrs), 'E': E})
+
+
+async def _fam_pow_sliver(rec, case):
+    """a header whose bits are exactly right and whose PoW hash lies BETWEEN the target decoded from those bits (what consensus
+    compares with) and the full-precision retarget value (what the library compares with): it does not meet its target."""
+    r = random.Random(case['seed'])
+    chain, genesis = _S['chain'], _S['genesis']
+    # pick a position whose next target loses the most precision in the compact form
+    best = None
+    for h in range(3, 900):
+        prev, pp = R.unpack(chain[h - 1]), R.unpack(chain[h - 2])
+        full = R.next_target(MAXT, pp, prev)
+        comp = R.compact_to_target(R.target_to_compact(full))
+        if full >= MAXT or full == comp:
+            continue
+        frac = (full - comp) / full * (full / 2 ** 256)
+        if best is None or frac > best[0]:
+            best = (frac, h, full, comp)
+    if best is None:
+        rec.log('pow_sliver.no_position_with_truncation')
+        return
+    frac, h, full, comp = best
+    tries = int(min(3.0 / frac, 600_000 if case.get('quick', True) else 4_000_000))
+    hdr = R.unpack(chain[h])
+    try:
+        raw = R.mine(hdr['version'], hdr['prev'], r.randbytes(32), hdr['claimtrie'], hdr['timestamp'], hdr['bits'], full, above=comp,
+                     start_nonce=r.getrandbits(30), max_tries=tries)
+    except RuntimeError:
+        rec.log('pow_sliver.not_mined_within_budget')
+        return
+    hd = _S['Sim'](':memory:')
+    await hd.open()
+    added = await hd.connect(0, b''.join(chain[:h]))
+    if added != h:
+        raise RuntimeError('harness: prefix of the base chain rejected')
+    rec.hit('pow_sliver.mined')
+    await _connect_op(rec, hd, h, raw, 'pow-in-the-sliver-between-compact-and-full-precision-target', genesis)
+    rec.case(['pow_sliver', h], sample={'family': 'pow_sliver', 'height': h, 'full_target': hex(full)[:24] + '..', 'compact_decoded': hex(comp)[:24] + '..',
+                                          'tries_budget': tries})
 
 
 async def _fam_mainnet(rec, case):
